@@ -19,6 +19,13 @@ class Undecided(Exception):
     pass
 
 
+class ForkReq(object):
+    """A summary asks the interpreter to split: with `cond` the call returned `ret` in state `st_yes`;
+    otherwise the same call block is executed again in state `st_no`."""
+    def __init__(self, cond, st_yes, ret, st_no):
+        self.cond, self.st_yes, self.ret, self.st_no = cond, st_yes, ret, st_no
+
+
 class State(object):
     __slots__ = ('store', 'pc')
 
@@ -52,6 +59,7 @@ class Interp(object):
         self.static_cells = {}
         self.firstset_of = {}
         self.watch = {}
+        self.bulk_by_ref_as_exists = True
         self.hash_names = {}      # const name suffix -> sym
         self.trace = False
         from . import summaries
@@ -1182,6 +1190,33 @@ class Interp(object):
                 bb = t['t']
             elif k == 'call':
                 st = self.do_call(st, fr, t)
+                if isinstance(st, ForkReq):
+                    fk = st
+                    # join behind the branch that consumes the call result (the loop's `match next()`), not the
+                    # call's own fall-through successor
+                    j = t['t']
+                    hops = 0
+                    while j is not None and blocks[j]['term']['k'] in ('goto', 'call', 'assert', 'drop') and hops < 20:
+                        j = blocks[j]['term'].get('t')
+                        hops += 1
+                    join = ipd[j] if (j is not None and blocks[j]['term']['k'] == 'switch') else EXIT
+                    if join is None:
+                        join = EXIT
+                    forkpc = fk.st_yes.pc
+                    d = self.decide(fk.cond, forkpc)
+                    sa = sb = None
+                    if d is not False:
+                        fk.st_yes.pc = forkpc + (fk.cond,)
+                        self.write(fk.st_yes, fr.id, t['dst'], fk.ret)
+                        sa = self.exec_region(fk.st_yes, fr, t['t'], join)
+                    if d is not True:
+                        fk.st_no.pc = forkpc + (B.bnot(fk.cond),)
+                        sb = self.exec_region(fk.st_no, fr, bb, join)
+                    st = self.merge_states(fk.cond, sa, sb, forkpc)
+                    if st is None:
+                        return None
+                    bb = join
+                    continue
                 if st is None:
                     return None
                 if t['t'] is None:
@@ -1306,6 +1341,8 @@ class Interp(object):
                 ret, st2 = Top('unknown callee ' + path), st
             else:
                 ret, st2 = h(self, st, fr, t, args)
+        if isinstance(ret, ForkReq):
+            return ret
         if st2 is None or ret is BOTTOM:
             if ret is BOTTOM or t['t'] is None:
                 self.panics.setdefault((fr.fname, t['at'], path), st.pc)
